@@ -70,3 +70,42 @@ def validate_all(module, cfg, execs, max_rejects=4, timeout=1500, mem="8g"):
         if len(rej) >= max_rejects:
             break
     return rej, st
+
+
+def selftest_corruptions(build, log):
+    """(a) of the binding demonstration: a genuine trace is accepted, every single-field corruption is rejected."""
+    import copy
+    from . import drvrun, tracecheck
+    progs = {"f1.asm": "\tcpu\tz80\n\tnop\n\tds\t0\n\twarning \"w\"\n\tjp\tfw\nfw:\n\tif\t0\n",
+             "f2.asm": "\tcpu\t8051\n\tnop\n\terror \"e\"\n\tbogus\nm\tmacro\n\tnop\n", "f3.asm": "\tcpu\tz80\n\tnop\n"}
+    r = drvrun.run_job(build, {"files": progs, "argv": ["f1.asm", "f2.asm", "f3.asm", "-q"], "events": "file,diag,stmt"})
+    if r.trace is None:
+        log("selftest: hooks unavailable, nothing to corrupt")
+        return True
+    ev = to_events(r.trace, {}, r.rc, [("f%d.p" % (i + 1)) in r.files for i in range(3)])
+    ok = tracecheck.validate("Driver_Trace", [ev], cfg="Driver_Trace.cfg").accepted
+    log("selftest: genuine trace (%d events) accepted: %s" % (len(ev), ok))
+    good = ok
+
+    def idx(a, n=0):
+        return [i for i, e in enumerate(ev) if e["a"] == a][n]
+    muts = [("DIAG.errs + 1", idx("DIAG", 1), lambda e: e.update(errs=e["errs"] + 1)),
+            ("DIAG.cls warning -> error", idx("DIAG", 0), lambda e: e.update(cls="error")),
+            ("FILEEND.kept flipped", idx("FILEEND", 0), lambda e: e.update(kept=1 - e["kept"])),
+            ("FILEEND.warns - 1", idx("FILEEND", 0), lambda e: e.update(warns=e["warns"] - 1)),
+            ("EXIT.rc 2 -> 0", idx("EXIT"), lambda e: e.update(rc=0)),
+            ("EXIT.kept: failing file kept", idx("EXIT"), lambda e: e.update(kept=[True] + e["kept"][1:])),
+            ("FILE.ifasm = 0 (IfAsm leaked)", idx("FILE", 1), lambda e: e.update(ifasm=0)),
+            ("FILE.rec: stale pointer not the predecessor's", idx("FILE", 2), lambda e: e.update(rec=0)),
+            ("PASS.cpu differs from the first pass", idx("PASS", 2), lambda e: e.update(cpu=e["cpu"] + 1)),
+            ("PASSEND.repass set but no further pass", idx("PASSEND", 2), lambda e: e.update(repass=1))]
+    for what, i, f in muts:
+        ev2 = copy.deepcopy(ev)
+        f(ev2[i])
+        v = tracecheck.validate("Driver_Trace", [ev2], cfg="Driver_Trace.cfg")
+        log("selftest: corruption '%s' rejected: %s" % (what, not v.accepted))
+        good = good and not v.accepted
+    ev3 = [e for i, e in enumerate(ev) if i != idx("PASS", 1)]
+    v = tracecheck.validate("Driver_Trace", [ev3], cfg="Driver_Trace.cfg")
+    log("selftest: removed PASS event rejected: %s" % (not v.accepted))
+    return good and not v.accepted
